@@ -169,6 +169,12 @@ fn run_history(ops: &[Op], counters: &mut Vec<(String, u64)>) -> Option<(String,
                 if live_deadlines.iter().any(|x| x.0 > t0 && (x.0 < t0 + margin || (x.0 + margin > until && x.0 < until + margin) || (*t == 0 && x.0 < t1 + margin))) {
                     return None;
                 }
+                // the call came back later than the requested timeout (the thread was descheduled) and a
+                // timer expired in between: returning it and not returning it are both right (it became
+                // deliverable during the call, but after the timeout): not a history with one answer
+                if live_deadlines.iter().any(|x| x.0 >= until && x.0 <= t1 + margin) {
+                    return None;
+                }
                 case.push_str(&format!("RT:{}:{}", t, t0));
                 match res {
                     Some(p) => { imp.push_str(&format!("e:{}", p)); deliver(&mut sh, &mut live_deadlines, p); }
